@@ -38,9 +38,28 @@ fn alphabet_a() -> Vec<Op> {
         a(K::Read(2)),
         a(K::Read(5)),
         a(K::Read(300)),
+    ]
+}
+
+/// The rarely used entry points next to a core of ordinary ones: the provided methods of the Read
+/// trait (which an implementation may override) and `extend` with an iterator that panics midway.
+fn alphabet_a_rare() -> Vec<Op> {
+    vec![
+        a(K::Push(65)),
+        a(K::Push(257)),
+        a(K::PushCopy(3)),
+        a(K::PushAnchored(300)),
+        a(K::Register(1)),
+        a(K::Backfill(0)),
+        a(K::Consume(1)),
+        a(K::Advance(66)),
+        a(K::Read(5)),
+        a(K::Clear),
         a(K::ReadToEnd),
         a(K::ReadExact(5)),
         a(K::ReadVectored),
+        a(K::ReadBytes(3)),
+        a(K::ExtendPanics),
     ]
 }
 
@@ -147,7 +166,7 @@ fn alphabet_c(full: bool) -> Vec<Op> {
 /// held across arena turn-overs, pushed late, with partial consumption in between; reads that
 /// fill the current chunk exactly (burn(70) then a 70-byte read).
 fn alphabet_e() -> Vec<Op> {
-    alphabet_e_ext().into_iter().filter(|o| !matches!(o.k, K::PushAnchored(5) | K::ExtendAnchored(_) | K::AnchorFirst(_))).collect()
+    alphabet_e_ext().into_iter().filter(|o| !matches!(o.k, K::PushAnchored(5) | K::ExtendAnchored(_) | K::AnchorFirst(_) | K::ExtendPanics)).collect()
 }
 
 /// Alphabet E plus the less usual ways for anchored memory to enter (short slices, extend, anchor first).
@@ -161,6 +180,7 @@ fn alphabet_e_ext() -> Vec<Op> {
         a(K::PushAnchored(70)),
         a(K::PushAnchored(5)),
         a(K::ExtendAnchored(300)),
+        a(K::ExtendPanics),
         a(K::AnchorFirst(300)),
         a(K::PushCopy(3)),
         a(K::Push(65)),
@@ -386,6 +406,14 @@ impl Explorer<'_> {
         if depth >= 2 && !owned_below {
             return;
         }
+        if self.rep.violations.len() as u64 + self.rep.violations_dropped >= 8 {
+            // eight reports from one worker decide the run; a violating execution can be very slow
+            // (a loop that only ends when memory runs out), so the worker stops here
+            self.stopped = true;
+            self.rep.not_exhaustive = true;
+            self.rep.note(format!("stopped after eight violations in this worker while exploring [{}]: the run is NOT exhaustive", self.label));
+            return;
+        }
         if self.ctx.out_of_time() {
             self.stopped = true;
             self.rep.not_exhaustive = true;
@@ -483,10 +511,10 @@ fn explore_cycles_sparse(ctx: &Ctx, rep: &mut Report, key_prefix: &'static str, 
             if !mine {
                 continue;
             }
-            if ctx.out_of_time() {
+            if ctx.out_of_time() || rep.violations.len() as u64 + rep.violations_dropped >= 8 {
                 stopped = true;
                 rep.not_exhaustive = true;
-                rep.note(format!("wall cap hit while exploring [{}]: the run is NOT exhaustive", label));
+                rep.note(format!("wall cap or eight violations in this worker while exploring [{}]: the run is NOT exhaustive", label));
                 break 'outer;
             }
             let mut x = c;
@@ -513,12 +541,18 @@ fn run_cycle(rep: &mut Report, key_prefix: &'static str, label: &str, start: Sta
     let mut oracle_runs = 0u64;
     let body = |applied: &mut Vec<Op>, meta: &mut (u64, u64, bool), oracle_runs: &mut u64| -> Result<(), String> {
         let mut ex = Exec::new(start);
+        if oracle_every > 1 {
+            // long unrollings leave no breadcrumbs (their text would be megabytes): no watchdog either
+            clear_breadcrumb();
+        }
         for op in prefix {
             if !ex.enabled(*op) {
                 return Err(format!("prefix op {} is not enabled (harness bug)", op.name()));
             }
             applied.push(*op);
-            set_breadcrumb(format!("start: {}\nhistory: {}\n", start.name(), render(applied)).as_bytes());
+            if oracle_every == 1 {
+                set_breadcrumb(format!("start: {}\nhistory: {}\n", start.name(), render(applied)).as_bytes());
+            }
             ex.apply(*op).map_err(|e| format!("step {} ({}): {}", applied.len(), op.name(), e))?;
         }
         for r in 0..reps {
@@ -674,6 +708,8 @@ fn run(ctx: &Ctx) -> Report {
     match ctx.prop.as_str() {
         "C03" => {
             explore(ctx, &mut rep, "C03", "C03 alphabet A", alphabet_a(), Start::Fresh, vec![], t.pick(5, 6));
+            explore(ctx, &mut rep, "C03", "C03 rare entry points", alphabet_a_rare(), Start::Fresh, vec![], t.pick(5, 6));
+            explore_cycles(ctx, &mut rep, "C03", "C03 cycles, rare entry points", alphabet_a_rare(), Start::Fresh, vec![], 3, t.pick(16, 40));
             explore(ctx, &mut rep, "C03", "C03 alphabet A", alphabet_a(), Start::FromSlices, vec![], t.pick(3, 5));
             explore(ctx, &mut rep, "C03", "C03 alphabet A", alphabet_a(), Start::FromIter, vec![], t.pick(3, 5));
             explore(ctx, &mut rep, "C03", "C03 reduced alphabet", alphabet_a_small(), Start::Fresh, vec![], t.pick(6, 8));
@@ -783,6 +819,10 @@ fn rule(ctx: &Ctx) -> String {
 }
 
 fn main() {
+    // no history of this engine needs more than a few hundred MiB; a runaway one must die alone
+    limit_address_space(768 << 20);
+    // an execution that does not end within two minutes is an unbounded loop in the code under test
+    start_watchdog(120);
     main_entry(Engine {
         name: "iovec_mc",
         level: |_| "model_checking",
